@@ -190,7 +190,24 @@ theorem guarded_forgetting_loses_the_table_symbol :
     scaleOf (step Generated.C14.regCfg toyPre toyTab (run Generated.C14.regCfg toyPre toyTab (fresh toyTab) toyHistory).1 (.look toyKg)).2 = some 7 := by
   decide
 
-/-- non-vacuity of `table_symbol_wins_after_any_history`: the toy history meets its hypothesis -/
+/-- non-vacuity of `table_symbol_wins_after_any_history` / `user_symbol_survives_reload`: the toy
+    history meets their hypothesis -/
 example : ∃ e, (absRun toyPre toyTab toyTab.get? toyHistory).1 toyKg = some e := ⟨_, rfl⟩
+
+/-- non-vacuity of `non_symbol_read_from_user_table`: after the look-up alone `kg` is no user key -/
+example : (absRun toyPre toyTab toyTab.get? [.look toyKg]).1 toyKg = none := by decide
+
+/-- non-vacuity of `unit_string_of_table_symbol`: with no alias tables the string `kg` is parsed to
+    the symbol `kg`, which the user's table holds after the toy history -/
+def toyRoute : Route Nat := { globals := [], inv := .leaf, rewritten := .leaf, pre := toyPre }
+
+example : toyKg ≠ 0 ∧ toyRoute.symbolOf toyKg = some toyKg ∧
+    ∃ e, (absRunS toyRoute toyTab toyTab.get? (toyHistory.map .op)).1 toyKg = some e := by
+  refine ⟨by decide, by decide, ⟨_, rfl⟩⟩
+
+/-- the hypotheses `cfg.sound`, `cc.sound` are met by the live configurations
+    (`live_registry_forgets_on_every_edit`, `live_registry_clears_cache_on_every_edit`) -/
+example : Generated.C14.regCfg.sound = true ∧ Generated.C14.regCacheCfg.sound = true :=
+  ⟨live_registry_forgets_on_every_edit, live_registry_clears_cache_on_every_edit⟩
 
 end Unyt.C14
